@@ -1,5 +1,6 @@
 import FlowCalModel.Gate
 import FlowCalModel.GeneratedExpr
+import FlowCalModel.Generated
 /-!
 # C08 — the ellipse predicate found in the source (centre, rotate by `R = [[c, s], [-s, c]]`, quadratic form ≤ 1) is the model's form
 -/
@@ -8,5 +9,8 @@ open FlowCal
 
 theorem source_ellipse_form_eq {α : Type} [Add α] [Sub α] [Mul α] [Div α] (cx cy a b c s x y : α) :
     GeneratedExpr.src_ellipse_form cx cy a b c s x y = Gate.ellipseForm cx cy a b c s x y := rfl
+
+/-- `start_end` and `high_low` in the source now (regenerated on every run) are, statement for statement, what the model stands for -/
+theorem gate_definitions_match_source : Generated.gateDefinitions = Gate.sourceSpec := rfl
 
 end FlowCal.C08
